@@ -56,15 +56,54 @@ async def async_client_case(explicit) -> dict | None:
     return None
 
 
+def sync_client_case(explicit) -> dict | None:
+    import socket
+
+    from easynetwork.clients import tcp as tcp_mod
+
+    seen = {}
+
+    class FakeSSLTransport:
+        def __init__(self, sock, ssl_context, *a, **kw):
+            seen.update(kw)
+            raise _Stop
+
+    orig = tcp_mod.SSLStreamTransport
+    tcp_mod.SSLStreamTransport = FakeSSLTransport  # type: ignore[misc,assignment]
+    srv = socket.socket(socket.AF_INET, socket.SOCK_STREAM)
+    srv.bind(("127.0.0.1", 0))
+    srv.listen(1)
+    a = socket.create_connection(srv.getsockname())
+    b, _ = srv.accept()
+    srv.close()
+    try:
+        kwargs = {} if explicit is None else {"ssl_standard_compatible": explicit}
+        try:
+            tcp_mod.TCPNetworkClient(a, StreamProtocol(StringLineSerializer()), ssl=ssl.create_default_context(), server_hostname="localhost", **kwargs)
+        except _Stop:
+            pass
+        except Exception as e:  # noqa: BLE001
+            return {"unexpected": f"{type(e).__name__}: {e}"}
+    finally:
+        tcp_mod.SSLStreamTransport = orig  # type: ignore[misc]
+        a.close()
+        b.close()
+    want = True if explicit is None else explicit
+    got = seen.get("standard_compatible", "<TLS transport not constructed>")
+    if got is not want:
+        return {"client": "TCPNetworkClient", "ssl_standard_compatible_argument": explicit, "mode_requested_from_the_TLS_transport": repr(got), "expected": want}
+    return None
+
+
 async def search() -> dict:
     cases = 0
     for explicit in (None, True, False):
         cases += 1
-        bad = await async_client_case(explicit)
+        bad = await async_client_case(explicit) or sync_client_case(explicit)
         if bad is not None:
             return {"reproduced": True, "violation": bad, "cases": cases,
                     "rule": "without an explicit choice a TLS client runs in standard-compatible mode: truncation is an error, closing sends a close notification (C09)"}
-    return {"reproduced": False, "cases": cases, "exhaustive": True, "bound": "AsyncTCPNetworkClient((host, port), ssl=context) with ssl_standard_compatible in {unset, True, False}"}
+    return {"reproduced": False, "cases": cases, "exhaustive": True, "bound": "AsyncTCPNetworkClient((host, port), ssl=context) and TCPNetworkClient(connected socket, ssl=context) with ssl_standard_compatible in {unset, True, False}"}
 
 
 def main() -> int:
